@@ -123,9 +123,10 @@ class CyclicCodeEncoder(SystematicLinearBlockCodeEncoder):
         # Create the generator matrix for systematic coding
         generator_matrix = self._generate_systematic_matrix()
 
-        # Extract the parity submatrix for systematic encoding
+        # Extract the parity submatrix for systematic encoding: _generate_systematic_matrix
+        # returns [P | I_k] (parity part in the first n-k columns) whatever the information set
         k, n = self._dimension, self._length
-        parity_submatrix = generator_matrix[:, k:n] if information_set == "left" else generator_matrix[:, 0 : n - k]
+        parity_submatrix = generator_matrix[:, 0 : n - k]
         super().__init__(parity_submatrix=parity_submatrix, information_set=information_set, **kwargs)
 
         # Register additional buffers specific to cyclic codes
@@ -458,11 +459,14 @@ class CyclicCodeEncoder(SystematicLinearBlockCodeEncoder):
         # the check matrix is H = [P^T | I_(n-k)]
         identity_part = torch.eye(self._redundancy, dtype=torch.float32, device=self.generator_matrix.device)
 
-        if self.information_set == "left":
+        if self._info_set_config == "left":
             # For 'left' information set, G = [I_k | P]
             parity_part = self.generator_matrix[:, self._dimension :].T
             # H = [P^T | I_m]
             self._check_matrix = torch.cat([parity_part, identity_part], dim=1)
+        elif self._info_set_config is None:
+            # Arbitrary information set: keep the check matrix derived from the generator matrix
+            self._check_matrix = self.check_matrix
         else:
             # For 'right' information set, G = [P | I_k]
             parity_part = self.generator_matrix[:, : self._redundancy].T
